@@ -634,7 +634,21 @@ class Executor(ExprMixin, StmtMixin, Engine):
             elif name == 'sorted':
                 yield from self.ev_sorted(s1, pos[0], node)
             elif name == 'getattr' and len(pos) == 3:
-                raise OutOfSubset('getattr', node)
+                # getattr(obj, 'attr', default) on an optional (hasattr-tested) field of a model class
+                an = node.args[1]
+                v = pos[0]
+                if not (isinstance(an, ast.Constant) and isinstance(an.value, str) and isinstance(v.t, TRef)):
+                    raise OutOfSubset('getattr', node)
+                owner = self.field_owner(v.t.cls, an.value)
+                if owner is None:
+                    raise OutOfSubset('getattr of an undeclared field %s' % an.value, node)
+                fv = self.read_field(s1, v, an.value)
+                if (owner, an.value) in self.m.optional_fields:
+                    has = self.read_field(s1, v, '__has_' + an.value)
+                    a, b = self.unify(fv, pos[2])
+                    yield s1, Val(a.t, z3.If(has.e, a.e, b.e))
+                else:
+                    yield s1, fv
             else:
                 raise OutOfSubset('builtin %s' % name, node)
 
